@@ -2075,6 +2075,16 @@ class RedunBackendDb(RedunBackend):
                 # between the Value row and its File/Task row, so ensure that row exists.
                 if isinstance(value, (BaseFile, BaseTask)):
                     self._record_special_redun_values([value], [value_hash])
+                # It may also have been interrupted before the subvalues were recorded. They
+                # are recorded in one transaction, so either all of them are there or none.
+                subvalues = list(value_interface.iter_subvalues())
+                if (
+                    subvalues
+                    and not session.query(Subvalue.value_hash)
+                    .filter(Subvalue.parent_value_hash == value_hash)
+                    .first()
+                ):
+                    self._record_subvalues(subvalues, value_hash)
                 return value_hash
 
             type_name = self.type_registry.get_type_name(type(value))
